@@ -89,7 +89,7 @@ example : ∃ s', Store.load acl (fresh 4) (fetchN1 chain4 2) 2 = .ok s' ∧ val
 A store that received only the entry `c3` (heads exchange: a one-entry log) holds `c3` without its
 parents: a good log, not closed. `Load(3)` then fetches `c4, c3, c2, c1`; the clamp counts the 3
 entries not held, 4 in all, and so asks `Join` to keep 3; but `Join` stops at the held `c3` and
-merges `c4` only: 2 values, and `tmp[len(tmp)-3:]` panics. `loadHead_no_panic` excludes this with
+merges `c4` only: 2 values, and `tmp[len(tmp)-3:]` panics. `loadHead0_no_panic` excludes this with
 `Closed L ∨ amount ≤ |L|`. -/
 
 def okOr (x : Except Err Log) (d : Log) : Log := match x with | .ok l => l | .error _ => d
@@ -105,16 +105,16 @@ theorem held_good : Good chain4 held :=
 def isPanic (r : Except Err Log) : Bool := match r with | .error .panic => true | _ => false
 
 /-- **a good, non-closed log on which the fixed `Load(3)` still panics** -/
-theorem loadHead_panic_nonclosed :
-    isPanic (loadHead acl (fun _ => [c4, c3, c2, c1]) 3 held 4) = true ∧
+theorem loadHead0_panic_nonclosed :
+    isPanic (loadHead0 acl (fun _ => [c4, c3, c2, c1]) 3 held 4) = true ∧
     Fetched chain4 held [c4, c3, c2, c1] ∧ ¬ Closed held ∧ ¬ ((3 : Int) ≤ held.entries.length) := by
   refine ⟨by decide, ⟨by decide, by decide⟩, ?_, by decide⟩
   intro h
   exact absurd (h c3 (by decide) 2 (by decide)) (by decide)
 
-/-- on the same log every amount that the hypothesis of `loadHead_no_panic` allows is fine -/
-example : loadHead acl (fun _ => [c4, c3, c2, c1]) 1 held 4 ≠ .error .panic :=
-  loadHead_no_panic (by unfold HashDet; decide) (by unfold TieFree; decide) (by unfold ClockMono; decide)
+/-- on the same log every amount that the hypothesis of `loadHead0_no_panic` allows is fine -/
+example : loadHead0 acl (fun _ => [c4, c3, c2, c1]) 1 held 4 ≠ .error .panic :=
+  loadHead0_no_panic (by unfold HashDet; decide) (by unfold TieFree; decide) (by unfold ClockMono; decide)
     acl _ 1 4 held_good ⟨by decide, by decide⟩ (Or.inr (by decide))
 
 /-! ### two cached heads (checked instance only: the general statement for several heads is not
